@@ -116,6 +116,96 @@ fn main() {
         println!("{}", set.len());
         return;
     }
+    if args[1] == "refdump" {
+        // vcheck refdump <seed> <first> <n> <outfile>: what the reference decoder says about n
+        // generated / mutated / near-miss texts, one JSON object per line (oracle cross-check)
+        use refmodel::decode::{decode, LimitKind, Verdict, U1};
+        use refmodel::json::escape;
+        use refmodel::rval::{show_dt, RVal};
+        use std::io::Write;
+        fn tagged(v: &RVal, out: &mut String) {
+            match v {
+                RVal::Str(s) => out.push_str(&format!("{{\"type\":\"string\",\"value\":{}}}", escape(s))),
+                RVal::Int(i) => out.push_str(&format!("{{\"type\":\"integer\",\"value\":\"{i}\"}}")),
+                RVal::Float(b) => out.push_str(&format!("{{\"type\":\"float\",\"value\":\"{b:016x}\"}}")),
+                RVal::Bool(b) => out.push_str(&format!("{{\"type\":\"bool\",\"value\":\"{b}\"}}")),
+                RVal::Dt(d) => {
+                    let t = match (d.date.is_some(), d.time.is_some(), d.offset.is_some()) {
+                        (true, true, true) => "datetime",
+                        (true, true, false) => "datetime-local",
+                        (true, false, _) => "date-local",
+                        _ => "time-local",
+                    };
+                    let sec60 = d.time.as_ref().map_or(false, |t| t.second == 60);
+                    let year0 = d.date.as_ref().map_or(false, |x| x.year == 0);
+                    out.push_str(&format!("{{\"type\":\"{t}\",\"value\":\"{}\",\"sec60\":{sec60},\"year0\":{year0}}}", show_dt(d)));
+                }
+                RVal::Array(a) => {
+                    out.push('[');
+                    for (i, x) in a.iter().enumerate() {
+                        if i > 0 {
+                            out.push(',');
+                        }
+                        tagged(x, out);
+                    }
+                    out.push(']');
+                }
+                RVal::Table(t) => {
+                    out.push('{');
+                    for (i, (k, x)) in t.entries.iter().enumerate() {
+                        if i > 0 {
+                            out.push(',');
+                        }
+                        out.push_str(&escape(k));
+                        out.push(':');
+                        tagged(x, out);
+                    }
+                    out.push('}');
+                }
+            }
+        }
+        let seed: u64 = args[2].parse().unwrap();
+        let first: u64 = args[3].parse().unwrap();
+        let n: u64 = args[4].parse().unwrap();
+        let mut f = std::io::BufWriter::new(std::fs::File::create(&args[5]).unwrap());
+        for i in first..first + n {
+            let mut rng = Rng::new(mix(&[seed, 0x7011, i]));
+            let bytes: Vec<u8> = match i % 6 {
+                0 => docs::rendered(&mut rng).text.into_bytes(),
+                1 | 2 => docs::mutated(&mut rng, false).0,
+                3 => docs::mutated(&mut rng, true).0,
+                4 => docs::near_miss_doc(&mut rng).into_bytes(),
+                _ => docs::rendered(&mut rng).text.into_bytes(),
+            };
+            let text = match String::from_utf8(bytes) {
+                Ok(t) => t,
+                Err(_) => continue,
+            };
+            let d = decode(&text);
+            let (verdict, reason) = match &d.verdict {
+                Verdict::Valid => ("valid", String::new()),
+                Verdict::Invalid(r) => ("invalid", r.clone()),
+                Verdict::Limit(LimitKind::Int) => ("limit-int", String::new()),
+                Verdict::Limit(LimitKind::Float) => ("limit-float", String::new()),
+                Verdict::Limit(LimitKind::Depth) => ("limit-depth", String::new()),
+                Verdict::Undecided(U1::A) => ("u1-a", String::new()),
+                Verdict::Undecided(U1::B) => ("u1-b", String::new()),
+                Verdict::Undecided(U1::C) => ("u1-c", String::new()),
+            };
+            let mut line = format!("{{\"i\":{i},\"text\":{},\"verdict\":\"{verdict}\",\"reason\":{}", escape(&text), escape(&reason));
+            if let (Verdict::Valid, Some(t)) = (&d.verdict, &d.tree) {
+                line.push_str(",\"tree\":");
+                tagged(t, &mut line);
+                if let Some(t2) = &d.tree_nl {
+                    line.push_str(",\"tree_nl\":");
+                    tagged(t2, &mut line);
+                }
+            }
+            line.push_str("}\n");
+            f.write_all(line.as_bytes()).unwrap();
+        }
+        return;
+    }
     if args[1] == "dump-corpus" {
         // vcheck dump-corpus <dir> <seed> <n>: seed inputs for the coverage-guided phase
         let dir = std::path::PathBuf::from(&args[2]);
